@@ -23,7 +23,8 @@ EXPLANATION = (
     "encrypt/unlock down to the key derivation. Cipher siblings agree on key derivation, cipher/mode/padding "
     "objects and the iv‖ciphertext / scrypt-header layout."
 )
-TECHNIQUE = "static analysis: must-precede ordering, allow-listed effects on the destination path, path-sensitive plaintext taint, who-may-write, sibling (encrypt/decrypt) agreement"
+EXACTNESS = "Second pass (DESIGN.md §10, exactness / completeness halves) — every secret that exists is written / encrypted / restored under exactly the functions' own tests; state flags change unconditionally on the success path; `aes_decrypt` returns or raises; wallet unlock / lock / encrypt / save / is_locked effects."
+TECHNIQUE = "static analysis: must-precede ordering, allow-listed effects on the destination path, path-sensitive plaintext taint, who-may-write, sibling (encrypt/decrypt) agreement; exact fact-set comparison of the tests dominating each effect and refusal (effect / refusal tables), fall-through path queries"
 NOT_DECIDED = ("ciphertext↔plaintext round trips and 'any other password fails' (probabilistic: a wrong key can yield valid padding), zlib/json "
                "behaviour of pack/unpack, file-system atomicity of os.replace itself")
 ASSUMPTIONS = ["os.replace / os.rename within one directory is atomic; fsync makes the temp file durable",
